@@ -1,5 +1,6 @@
 """C20 — Pseudolocalization changes only ASCII letters and never touches markup.
 Model: coq/theories/Pseudo/Pseudo.v; theorems: Props/C20.v."""
+import functools
 import itertools
 import re
 import sexp
@@ -73,6 +74,7 @@ def generate(rng, tier):
     yield ('random-markup', cases)
 
 
+@functools.lru_cache(maxsize=1 << 18)
 def ref_transform(text, flipped, elongate):
     out = []
     for ch in text:
@@ -138,13 +140,14 @@ def oracle(case_line, out):
 
 
 def project(out):
-    try:
-        o = sexp.loads(out)
-    except ValueError:
-        return out
-    if sexp.tag(o) == 'ok' and len(o) == 5:
-        return sexp.dumps(o[:4])
-    if sexp.tag(o) == 'PANIC':
+    # the bundle column exists on the Rust side only (atoms contain no blanks or parentheses)
+    if out.startswith('(ok '):
+        if out.endswith(' none)'):
+            return out[:-6] + ')'
+        k = out.rfind(' (some ')
+        if k > 0:
+            return out[:k] + ')'
+    if out.startswith('(PANIC'):
         return '(PANIC)'
     return out
 
